@@ -75,7 +75,7 @@ class Gen12(Gen):
     def add_lookalike_attrs(self, o, cid, mode, how_many):
         """mode 'together': the declared attribute is (made) set and the look-alike is added next to it;
         'alone': the declared attribute is unset (only attributes __init__ does not preset).
-        how_many: 1 = one declared attribute (own-namespace kind first) + another kind, None = all."""
+        how_many: 1 = one declared attribute with all its look-alikes, None = every declared attribute."""
         T, r = self.T, self.rng
         row = T.rows[cid]
         la = T.look_attrs[cid]
@@ -86,10 +86,15 @@ class Gen12(Gen):
         if how_many is None:
             chosen = list(la)
         else:
-            own = [t for t in la if t[1] == "own-ns"] or la
-            first = r.choice(own)
-            rest = [t for t in la if t[1] != first[1]]
-            chosen = [first] + ([r.choice(rest)] if rest else [])
+            # one declared attribute (for 'alone' one that __init__ does not preset, if there is one) and ALL its
+            # look-alikes at once: own namespace, foreign namespace, xml namespace, unqualified
+            ds = list(dict.fromkeys(t[0] for t in la))
+            free = [d for d in ds if member_of[d] not in preset]
+            d0 = r.choice(free if (mode == "alone" and free) else ds)
+            chosen = [t for t in la if t[0] == d0]
+            # ... and the own-namespace look-alike of EVERY declared attribute (a change that singles out one
+            # attribute name of one class is met on every run)
+            chosen += [t for t in la if t[1] == "own-ns" and t[0] != d0]
         n = 0
         for d, kind, q in chosen:
             mname = T.names[member_of[d]]
@@ -108,17 +113,20 @@ class Gen12(Gen):
             n += 1
         return n
 
-    def add_lookalike_child(self, o, cid, depth=2):
+    def add_lookalike_child(self, o, cid, depth=2, n=1):
+        """n unknown children whose tags look like n different known child keys"""
         T, r = self.T, self.rng
         lk = T.look_kids[cid]
         if not lk:
             return 0
-        d, kind, q = r.choice(lk)
-        e = self.foreign_elem(depth, T.names[q])
-        if r.random() < 0.5 and e.text is None:
-            e.text = self.elem_text()
-        o.extension_elements.append(e)
-        self._c("lookalike-child:%s" % kind)
+        keys = list(dict.fromkeys(t[0] for t in lk))
+        for d0 in r.sample(keys, min(n, len(keys))):
+            d, kind, q = r.choice([t for t in lk if t[0] == d0])
+            e = self.foreign_elem(depth, T.names[q])
+            if r.random() < 0.5 and e.text is None:
+                e.text = self.elem_text()
+            o.extension_elements.append(e)
+            self._c("lookalike-child:%s" % kind)
         return 1
 
     # ---- objects
@@ -170,7 +178,7 @@ class Gen12(Gen):
                         kt = q
                 o.extension_elements.append(self.foreign_elem(3 if (full and root) else r.randint(1, 2), kt))
         if (full and root) or r.random() < (0.5 if root else 0.2):
-            self.add_lookalike_child(o, cid, 2 if root else 1)
+            self.add_lookalike_child(o, cid, 2 if root else 1, 4 if (full and root) else 1)
         if r.random() < (1.0 if (full and root) else foreign):
             for _ in range(r.randint(1, 2)):
                 k, v = self.foreign_attr()
@@ -208,23 +216,32 @@ def pretty(rng, tree, gen):
     return t
 
 
-def with_lookalike_child(rng, T, gen, cid, tree):
-    """the document plus one unknown child per (up to 2) known child key: same local name, other namespace;
+def with_lookalike_child(rng, T, gen, cid, tree, cap=8):
+    """the document plus one unknown child per known child key (at most cap): same local name, other namespace;
     a copy of the real child when the document has one (its whole subtree must come back as extension element)"""
     lk = T.look_kids[cid]
     if not lk:
         return None
     t = copy.deepcopy(tree)
-    for d, kind, q in rng.sample(lk, min(2, len(lk))):
+    # one look-alike for EVERY known child key (kind drawn), at most `cap`; up to 2 of them are copies of the real child
+    by_key = {}
+    for d, kind, q in lk:
+        by_key.setdefault(d, []).append((d, kind, q))
+    picks = [rng.choice(v) for v in by_key.values()]
+    if len(picks) > cap:
+        picks = rng.sample(picks, cap)
+    copies = 0
+    for d, kind, q in picks:
         real = [k for k in t if k.tag == T.names[d]]
-        if real and rng.random() < 0.7:
+        if real and copies < 2 and rng.random() < 0.7:
+            copies += 1
             e = copy.deepcopy(rng.choice(real))
             e.tag = T.names[q]
             for x in e.iter():      # a literal xmlns:xs attribute (AttributeValue objects carry one) is no attribute in XML
                 for k in [k for k in x.attrib if k.startswith("xmlns")]:
                     del x.attrib[k]
         else:
-            e = gen.foreign_elem(2, T.names[q]).transfer_to_element_tree()
+            e = gen.foreign_elem(2 if copies < 2 else 1, T.names[q]).transfer_to_element_tree()
         if e.text is None and rng.random() < 0.5:
             e.text = gen.elem_text()
         e.tail = rng.choice(TAILS)
